@@ -18,7 +18,9 @@ CHECKS = {
          'lists (length, outside-unchanged, inserted positions, word '
          'boundaries, separator language without blank line, comment / empty '
          'left-hand side); the matcher is proved sound and complete against a '
-         'declarative language of the regular expression the code builds',
+         'declarative language of the regular expression the code builds; in '
+         'multi-language mode the list rewrites the parts of the main language '
+         'and nothing else (theorem over the model of tex2txt())',
     ref='6/C13',
     technique='Coq proof (induction over text/spans) + extracted-model '
               'differential check + declarative reference oracle'),
